@@ -14,6 +14,7 @@ from taskiq.exceptions import NoResultError
 from taskiq.formatters.json_formatter import JSONFormatter
 from taskiq.kicker import AsyncKicker
 from taskiq.receiver import Receiver
+from taskiq.result import TaskiqResult
 from taskiq.serializers import PickleSerializer
 
 from vt.core.engine import Outcome, Part, short
@@ -67,6 +68,7 @@ def cases() -> Any:
         # what a failing attempt raises: ordinary exceptions, a BaseException, and errors of taskiq's own client API
         # (a task waiting for a sub-task, kicking while the broker is down, rejecting) - all of them are failures
         subclass=st.sampled_from([False, False, True]),
+        store_prefill=st.sampled_from([None, None, 1, 2, 3]),
         fail_kind=st.sampled_from(["ValueError", "ValueError", "KeyError", "MyBase", "CancelledError", "SystemExit", "EmptyBatchError", "TaskiqResultTimeoutError", "SendTaskError", "TaskRejectedError", "ResultGetError"]),
         # a second call of the same task handled by the same middleware instance (own labels, own outcome sequence)
         second=st.one_of(st.none(), st.none(), st.fixed_dictionaries(dict(
@@ -167,7 +169,11 @@ def run_case(c: Dict[str, Any]) -> Outcome:
                 saves.append(["err" if res.is_err else "ok", runs.get(tid, 0), tid, res.return_value])
                 await super().set_result(tid, res)
 
-        b.result_backend = RB()
+        # the bundled in-memory result store, fresh or already FULL (bounded store: older results get evicted, never the new one lost)
+        pre = c.get("store_prefill")
+        b.result_backend = RB(max_stored_results=pre) if pre else RB()
+        for j in range(pre or 0):
+            await InmemoryResultBackend.set_result(b.result_backend, f"old{j}", TaskiqResult(is_err=False, return_value=j, execution_time=0.0))
         if c["codec"] == "pickle":
             b.serializer = PickleSerializer()
         if c["codec"] == "jsonfmt":
@@ -225,11 +231,15 @@ def run_case(c: Dict[str, Any]) -> Outcome:
                 except BaseException as exc:  # noqa: BLE001 - the delivery callback is not supposed to raise
                     cb_errors.append(f"{type(exc).__name__}: {exc}")
             guards.append(guard)
+            # read back right after this call's last delivery (a later call may legitimately evict it from a bounded store)
+            tid_ = f"T{n}"
+            stored_final[tid_] = (await b.result_backend.get_result(tid_)) if await b.result_backend.is_result_ready(tid_) else None
         return runs, saves, seen
 
     msgs: List[Any] = []
     guards: List[int] = []
     cb_errors: List[str] = []
+    stored_final: Dict[str, Any] = {}
     stale: List[str] = []
     runs, saves, seen = asyncio.run(go())
     nontriv = False
@@ -254,6 +264,13 @@ def run_case(c: Dict[str, Any]) -> Outcome:
                     + (f"; the other call had max_retries={calls[1 - n]['mr']}, retry_on_error={calls[1 - n]['roe']!r}" if len(calls) > 1 else ""))
         elif [[s[0], s[1]] for s in my_saves] != ms:
             out.add("C11.c", f"{who}saves (kind, after execution #) {[[s[0], s[1]] for s in my_saves]} != reference model {ms} (no_result_on_retry={cl['nror']})")
+        if my_saves and execs == me:
+            fin_ = stored_final.get(tid)
+            last = my_saves[-1]
+            if fin_ is None or ("err" if fin_.is_err else "ok") != last[0] or (not fin_.is_err and fin_.return_value != last[3]):
+                out.add("C11.c", f"{who}the result readable under the task id after the last attempt is "
+                                 f"{None if fin_ is None else ('err' if fin_.is_err else 'ok', short(fin_.return_value, 40))}, the final attempt (execution #{last[1]}) stored "
+                                 f"{(last[0], short(last[3], 40))} (result store pre-filled with {c.get('store_prefill') or 0} results)")
         if len(my_msgs) != execs:
             out.add("C11.d", f"{who}{len(my_msgs)} deliveries but {execs} executions")
         mine_req = reqs.get(tid, [])
